@@ -253,6 +253,8 @@ def check_long_history(case):
 # ---------------------------------------------------------------- no mutation of host values
 
 MUT_FORMULAS = [
+    # host values that can be walked only once (an iterator, a generator, a map object): walking them uses them up, which is a change the host can see
+    'SUM(v_it)', 'COUNT(v_gen,v_l)', 'AND(v_mp)', 'CONCATENATE(v_it,v_gen)', 'AVERAGE(v_l,v_gen)', 'v_it', 'IF(TRUE,v_gen,0)', 'MAX(v_mp,1)', 'COUNTA(v_it,v_mp)', 'TEXTJOIN(",",TRUE,v_gen)', 'OR(v_it,v_l)', 'v_gen&"x"', 'HF(v_it,v_gen)',
     # host lists holding error objects, as the value of the whole formula or passed through selecting functions
     'v_le', 'IF(TRUE,v_le,0)', 'IFERROR(v_le,0)', 'INDEX(v_le,0,0)', 'v_ne', 'INDEX(v_ne,2)', 'CHOOSE(1,v_le,1)', '{v_le,1}', 'ISERROR(INDEX(v_le,2))', 'v_le&""', 'COUNT(v_le)',
     # several host lists handed to one call of a function that flattens its arguments
@@ -307,6 +309,9 @@ def check_mutation(case):
     P = hot().Parser()
     for k, v in host.items():
         P.set_variable(k, v)
+    once = {'v_it': (iter(list(case['l'])), list(case['l'])), 'v_gen': ((x for x in list(case['m'])), list(case['m'])), 'v_mp': (map(float, list(case['k'])), [float(x) for x in case['k']])}
+    for k, (it, _) in once.items():
+        P.set_variable(k, it)
 
     def hf(*args):
         for a in args:
@@ -330,6 +335,10 @@ def check_mutation(case):
         for a, snap, ids in seen_args:
             if not same_items(a, snap) or id_tree(a) != ids:
                 raise Violation('evaluating %r changed a list after it was handed to a custom function: %r -> %r' % (f, snap, a), enc(a), enc(snap))
+    for k, (it, items) in once.items():
+        left = list(it)
+        if left != items:
+            raise Violation('after evaluating %r the host\'s %s (an iterator over %r) has only %r left: the evaluation consumed it' % (case['formulas'], k, items, left), enc(left), enc(items))
 
 
 # ---------------------------------------------------------------- no retention
@@ -390,20 +399,27 @@ def check_retention(case):
     def snap():
         gc.collect()
         return (len(gc.get_objects()), live_tracebacks(), sum(chain_len(e) for e in sing), sys.getallocatedblocks(), deep_size(P))
+    per_request = bool(case.get('per_request'))       # a host that builds a parser for every evaluation and drops it afterwards
+
+    def one():
+        quiet_parse(make(debug) if per_request else P, f)
+    if per_request:
+        for _ in range(3):
+            one()
     s0 = snap()
     for _ in range(N):
-        quiet_parse(P, f)
+        one()
     s1 = snap()
     for _ in range(N):
-        quiet_parse(P, f)
+        one()
     s2 = snap()
     # a leak per evaluation shows in both windows; a cache that fills once shows in at most one
     grow = [min(s1[i] - s0[i], s2[i] - s1[i]) for i in range(5)]
     # allocated blocks are a noisy measure (buffers of the debug output, lazily filled line caches): used with debug off only, at one block per evaluation
-    blocks_bad = (not debug) and grow[3] >= N
+    blocks_bad = (not debug) and (not per_request) and grow[3] >= N      # (building a parser allocates and frees thousands of blocks: too noisy a measure there; a retained parser shows as gc-tracked objects)
     if grow[0] >= N // 2 or grow[1] >= N // 2 or grow[2] > 0 or blocks_bad or grow[4] >= 4 * N:
-        raise Violation('%d further evaluations of %r (debug=%r) left %d more gc-tracked objects, %d more tracebacks/frames, %d more entries in the shared error objects\' traceback chains, %d more allocated memory blocks, %d more bytes reachable from the parser and the hotxlfp/ply modules '
-                        '(the smaller of two consecutive windows)' % (N, f, debug, grow[0], grow[1], grow[2], grow[3], grow[4]),
+        raise Violation('%d further evaluations of %r (debug=%r%s) left %d more gc-tracked objects, %d more tracebacks/frames, %d more entries in the shared error objects\' traceback chains, %d more allocated memory blocks, %d more bytes reachable from the parser and the hotxlfp/ply modules '
+                        '(the smaller of two consecutive windows)' % (N, f, debug, ', each on a parser of its own that is dropped afterwards' if per_request else '', grow[0], grow[1], grow[2], grow[3], grow[4]),
                         {'objects': grow[0], 'tracebacks': grow[1], 'chain': grow[2], 'blocks': grow[3], 'bytes': grow[4]}, 'no growth')
 
 
@@ -504,10 +520,10 @@ LAWS = [
         nontrivial=lambda c: len(c['formulas']) >= 3,
         rule='2-6 distinct formulas over values that are equal but of different kinds (TRUE/1/1.0/"1", 0/0.0/-0.0, 2^53 as int and float, a date and its serial, lists of them) under observers that tell the kinds apart (&"", TYPE, IS*, N, T, EXACT, MATCH, COUNTIF, TEXTJOIN) or as the argument of one of 58 one-argument calls, '
              'each on its own new parser, are evaluated in a brand-new interpreter process in one order and in a second brand-new interpreter in a shuffled order: every formula must give the same outcome in both (this reaches state kept at module level, which an oracle living in the same process would share); non-trivial = at least 3 formulas'),
-    Law('no_retention', check_retention, strategy=st.fixed_dictionaries({'f': st.sampled_from(RETAIN), 'n': st.sampled_from([50, 200]), 'debug': st.booleans()}), key=ret_key,
+    Law('no_retention', check_retention, strategy=st.fixed_dictionaries({'f': st.sampled_from(RETAIN), 'n': st.sampled_from([50, 200]), 'debug': st.booleans(), 'per_request': st.sampled_from([False, False, True])}), key=ret_key,
         quick=200, thorough=4000, shards=(16, 16), shrink=False,
-        classes=lambda c: ('debug:%s' % c['debug'], 'n%d' % c['n']), required=('debug:True', 'debug:False', 'n50', 'n200'),
-        rule='one of 32 formulas (mostly failing: lexical, syntax, run-time, raised by aggregates, raised by host callbacks, trapped by IFERROR) evaluated 5 times to warm up and then N = 50 or 200 more times: '
+        classes=lambda c: ('debug:%s' % c['debug'], 'n%d' % c['n'], 'parser-per-evaluation' if c.get('per_request') else 'one-parser'), required=('debug:True', 'debug:False', 'n50', 'n200', 'parser-per-evaluation'),
+        rule='one of 32 formulas (mostly failing: lexical, syntax, run-time, raised by aggregates, raised by host callbacks, trapped by IFERROR) evaluated 5 times to warm up and then N = 50 or 200 more times, on one parser or (a third of the cases) each on a parser of its own that is dropped afterwards: '
              'growth of gc-tracked objects, of live traceback/frame objects < N/2, of allocated memory blocks (sys.getallocatedblocks; debug off only) < N, growth of the bytes reachable from the parser and the hotxlfp/ply modules < 4N, each in the smaller of two consecutive windows of N, traceback chains of the nine shared error objects do not grow'),
 ]
 
